@@ -169,6 +169,10 @@ def _obj(x):
 def render(doc):
     """The YAML text of an abstract document.  Purely syntactic; duplicate names become duplicate keys, on purpose."""
     y = []
+    if doc.get("nuc"):
+        y.append("nuclide flags:")
+        for n in doc["nuc"]:
+            y.append("    %s: {burn: false, xs: true}" % n)
     if doc["iso"]:
         y.append("custom isotopics:")
         for iso in doc["iso"]:
